@@ -496,6 +496,13 @@ def class_pairs():
     P.append(("an array literal where a primitive is expected", "super(...) argument", al % ("{1.0f}", ""), al % ("1.0f", "")))
     for pos, bad_s, good_s in [("parenthesised gate name", "(x)(q);", "x(q);"), ("call of a call", "h(q)(q);", "h(q); h(q);"), ("parenthesised function name", "echo((f)(1.0f));", "echo(f(1.0f));")]:
         P.append(("a call through something that is not a name", pos, al % ("1.0f", bad_s), al % ("1.0f", good_s)))
+    # reset, and measure as an expression, act on one qubit
+    rq = "class K { public qubit q; public constructor() -> K { } }\nfunction main() -> void { qubit[2] qs; int[] xs = {1}; K k = new K(); %s }"
+    for pos, bad_s, good_s in [("reset of a register", "reset qs;", "reset qs[0];"), ("reset of an int array", "reset xs;", "reset qs[1];"), ("reset of an object", "reset k;", "reset k.q;"),
+                               ("measure expression on a register", "bit b = measure qs;", "bit b = measure qs[0];"),
+                               ("measure expression on an object", "bit b = measure k;", "bit b = measure k.q;"),
+                               ("measure expression on a register, as an argument", "echo(measure qs);", "echo(measure qs[1]);")]:
+        P.append(("reset / measure target that is not a qubit", pos, rq % bad_s, rq % good_s))
     # a field may not reuse the name of a field it inherits (bare name, this.f and x.f would be resolved against different classes)
     hd = "class O { %s public constructor() -> O { } public function f() -> void { } }\nclass M extends O { public constructor() -> M { super(); } }\nclass D extends %s { %s public constructor() -> D { super(); } }\nfunction main() -> void { D d = new D(); d.f(); }"
     for pos, basef, via, bad_f, good_f in [("private qubit hidden by a private qubit", "private qubit q;", "O", "private qubit q;", "private qubit r;"),
